@@ -30,21 +30,22 @@ type scope struct {
 }
 
 type gen struct {
-	p      *pkg
-	cfg    fnCfg
-	fd     *ast.FuncDecl
-	sig    *sig
-	out    []string
-	ind    int
-	scopes []*scope
-	ntmp   int
-	tmp    string   // prefix of temporaries
-	lits   []string // Go literals met since the last emitted line (become its trailing comment)
-	uses   map[string]bool
-	loop   int      // index into cfg.Fuel
-	ctx    []string // enclosing "range" / "fuel" / "fuel+post" / "switch" statements
-	recv   string   // Go name of the receiver when the method is threaded (sig.threaded), else ""
-	al     *aliases
+	p       *pkg
+	cfg     fnCfg
+	fd      *ast.FuncDecl
+	sig     *sig
+	out     []string
+	ind     int
+	scopes  []*scope
+	ntmp    int
+	tmp     string   // prefix of temporaries
+	lits    []string // Go literals met since the last emitted line (become its trailing comment)
+	uses    map[string]bool
+	loop    int             // index into cfg.Fuel
+	ctx     []string        // enclosing "range" / "fuel" / "fuel+post" / "switch" statements
+	recv    string          // Go name of the receiver when the method is threaded (sig.threaded), else ""
+	dropped map[string]bool // variables of dropped `x := runtime.…` assignments (never declared)
+	al      *aliases
 }
 
 type unsupported struct{ msg string }
